@@ -329,21 +329,29 @@ def iter_linear_fit(xy, uv, wxy=None, wuv=None,
     # clipping iterations:
     effective_nclip = 0
     for n in range(nclip):
-        resids = fit['resids']
-
         # redefine what pixels will be included in next iteration
         cutoff = nsigma * fit[sigstat]
 
+        if clip_accum:
+            # test only currently retained points:
+            tested = mask
+            resids = fit['resids']
+        else:
+            # test *all* (positively weighted) points against current fit so
+            # that previously rejected points do not re-enter the fit untested:
+            tested = wmask
+            resids = (xy[wmask] - np.dot(uv[wmask], fit['matrix_ld'].T) -
+                      fit['shift_ld'])
+
         nonclipped = np.linalg.norm(resids, axis=1) < cutoff
-        if np.count_nonzero(nonclipped) < minobj or nonclipped.all():
+        new_mask = np.zeros_like(wmask)
+        new_mask[tested] = nonclipped
+        if (np.count_nonzero(new_mask) < minobj or
+                np.array_equal(new_mask, mask)):
             break
 
         effective_nclip += 1
-
-        prev_mask = mask
-        if not clip_accum:
-            mask = np.array(wmask)
-        mask[prev_mask] *= nonclipped
+        mask = new_mask
 
         wmxy = None if wxy is None else wxy[mask]
         wmuv = None if wuv is None else wuv[mask]
